@@ -79,7 +79,7 @@ def _poly_in(e, p, subs):
     """expression -> coefficient list (low -> high, strings) of the polynomial in p after
     substituting the other parameters"""
     e = sp.sympify(e).subs(subs)
-    e = sp.together(sp.expand(e))
+    e = sp.cancel(sp.together(sp.expand(e)))
     num, den = sp.fraction(e)
     if den.has(p):
         raise Unsupported(f"denominator mentions {p}: {e}")
